@@ -958,73 +958,250 @@ INT_MAX = 2147483647
 INT_MIN = -2147483648
 
 
+class _Undecided(Exception):
+    pass
+
+
+def _t7_float(u, e, x, env):
+    """value of a double expression when the converted variable holds x (None = not an expression over it)"""
+    e0 = strip_casts(e)
+    v = const_val(e0)
+    if v is None:
+        v = const_val(e)
+    if v is not None:
+        return float(v)
+    k = e0.get('k')
+    if k == 'float':
+        return float(e0['fval'])
+    if k == 'ref':
+        if e0['d'] in env:
+            return env[e0['d']]
+        raise _Undecided(expr_str(e0))
+    if k == 'un' and e0['op'] == '-':
+        return -_t7_float(u, e0['e'], x, env)
+    if k == 'call' and callee_name(e0) in ('fabs', '__builtin_fabs') and len(e0['args']) == 1:
+        v = _t7_float(u, e0['args'][0], x, env)
+        return abs(v)
+    raise _Undecided(expr_str(e0))
+
+
+def _t7_cond(u, e, x, env):
+    """truth of a condition over the converted variable, None when it does not involve it (taken both ways)"""
+    e0 = strip_casts(e)
+    k = e0.get('k')
+    if k == 'un' and e0['op'] == '!':
+        t = _t7_cond(u, e0['e'], x, env)
+        return None if t is None else (not t)
+    if k == 'bin' and e0['op'] in ('&&', '||'):
+        l, r = _t7_cond(u, e0['l'], x, env), _t7_cond(u, e0['r'], x, env)
+        if e0['op'] == '&&':
+            if l is False or r is False:
+                return False
+            return True if (l is True and r is True) else None
+        if l is True or r is True:
+            return True
+        return False if (l is False and r is False) else None
+    mentions = any(y.get('k') == 'ref' and y.get('d') in env for y in walk(e0))
+    if not mentions:
+        return None
+    if k == 'bin' and e0['op'] in ('<', '<=', '>', '>=', '==', '!='):
+        l, r = _t7_float(u, e0['l'], x, env), _t7_float(u, e0['r'], x, env)
+        return {'<': l < r, '<=': l <= r, '>': l > r, '>=': l >= r, '==': l == r, '!=': l != r}[e0['op']]
+    if k == 'call' and callee_name(e0) in ('isnan', '__builtin_isnan', '__isnan') and e0.get('args'):
+        v = _t7_float(u, e0['args'][0], x, env)
+        return v != v
+    if k == 'call' and callee_name(e0) in ('isinf', '__builtin_isinf', '__isinf', '__builtin_isinf_sign') and e0.get('args'):
+        v = _t7_float(u, e0['args'][0], x, env)
+        return v in (float('inf'), float('-inf'))
+    raise _Undecided(expr_str(e0))
+
+
+def _t7_int(u, e, x, env, ienv, depth=0):
+    """abstract value of an int expression: ('k', c) | ('cast',) | None (nothing to do with the converted variable)"""
+    r0 = e
+    while r0.get('k') == 'cast' and not (u.ty(r0['from'])['c'] == 'float' and u.ty(r0['ty'])['c'] == 'int'):
+        r0 = r0['e']
+    if r0.get('k') == 'cast':
+        inner = strip_casts(r0['e'])
+        if inner.get('k') == 'ref' and inner['d'] in env:
+            return ('cast',)
+        raise _Undecided('(int)%s' % expr_str(inner))
+    e0 = strip_casts(e)
+    v = const_val(e)
+    if v is None:
+        v = const_val(e0)
+    if v is not None:
+        return ('k', int(v))
+    if e0.get('k') == 'cond':
+        t = _t7_cond(u, e0['c'], x, env)
+        if t is None:
+            a_, b_ = _t7_int(u, e0['t'], x, env, ienv, depth), _t7_int(u, e0['e'], x, env, ienv, depth)
+            if a_ == b_:
+                return a_
+            raise _Undecided(expr_str(e0))
+        return _t7_int(u, e0['t'] if t else e0['e'], x, env, ienv, depth)
+    if e0.get('k') == 'ref' and e0['d'] in ienv:
+        return ienv[e0['d']]
+    if e0.get('k') == 'call' and callee_name(e0) in u.functions and depth < 3:
+        g = u.functions[callee_name(e0)]
+        fl = [i for i, p_ in enumerate(g.params) if u.ty(p_['ty'])['c'] == 'float']
+        if g.body is not None and len(fl) == 1 and fl[0] < len(e0['args']):
+            arg = strip_casts(e0['args'][fl[0]])
+            if arg.get('k') == 'ref' and arg['d'] in env:
+                vals = set()
+                for (_n, val) in _t7_paths(u, g, x, {g.params[fl[0]]['d']: x}, depth + 1, want='return'):
+                    vals.add(val)
+                if len(vals) == 1:
+                    return vals.pop()
+                raise _Undecided('%s returns %s' % (g.name, sorted(map(str, vals))))
+    return None
+
+
+def _t7_paths(u, fn, x, env, depth=0, want='store'):
+    """(node, abstract value) of every store into ->valueint (want='store') or every return (want='return') that can be reached
+    when the converted variable holds x; conditions that do not involve it are taken both ways"""
+    cfg = fn.cfg()
+    out = []
+    seen = set()
+    work = [(cfg.entry.id, ())]
+    while work:
+        nid, ie = work.pop()
+        if (nid, ie) in seen:
+            continue
+        seen.add((nid, ie))
+        if len(seen) > 20000:
+            raise _Undecided('too many paths in %s' % fn.name)
+        node = cfg.nodes[nid]
+        ienv = dict(ie)
+        exprs = []
+        if node.kind == 'decl' and node.decl is not None and 'init' in node.decl:
+            if u.ty(node.decl['ty'])['c'] == 'int':
+                try:
+                    ienv[node.decl['d']] = _t7_int(u, node.decl['init'], x, env, ienv, depth)
+                except _Undecided:
+                    ienv[node.decl['d']] = None
+        elif node.kind == 'stmt' and node.expr is not None:
+            for y in walk(node.expr):
+                if y.get('k') == 'bin' and y.get('op') == '=':
+                    l = strip_casts(y['l'])
+                    if l.get('k') == 'mem' and l['f'] == 'valueint' and want == 'store':
+                        r_ = strip_casts(y['r'])
+                        if r_.get('k') == 'mem' and r_['f'] == 'valueint':
+                            continue
+                        out.append((y, _t7_int(u, y['r'], x, env, ienv, depth)))
+                    elif l.get('k') == 'ref' and u.ty(l.get('ty0', l['ty']))['c'] == 'int':
+                        try:
+                            ienv[l['d']] = _t7_int(u, y['r'], x, env, ienv, depth)
+                        except _Undecided:
+                            ienv[l['d']] = None
+                    elif l.get('k') == 'ref' and l['d'] in env:
+                        pass        # the converted variable is (re)defined: it holds x by assumption
+        elif node.kind == 'return':
+            if want == 'return' and node.expr is not None:
+                out.append((node.expr, _t7_int(u, node.expr, x, env, ienv, depth)))
+            continue
+        ie2 = tuple(sorted((k_, v_) for k_, v_ in ienv.items() if v_ is not None))
+        for (y, l) in cfg.succ[nid]:
+            if node.kind == 'branch' and l is not None and l[0] in ('T', 'F'):
+                t = _t7_cond(u, l[1], x, env)
+                if t is not None and t != (l[0] == 'T'):
+                    continue
+            work.append((y, ie2))
+    return out
+
+
 def tab7(units, R):
-    """Every conversion of a double to the int view is reached only when the value was compared against INT_MAX and
-    INT_MIN and both comparisons failed; the failing sides store the saturated constants."""
+    """The int view of a number is the double truncated towards zero and saturated at INT_MIN / INT_MAX, and the conversion itself is
+    only reached where it is defined.  For every function that stores (int)x - directly, through an int local, a conditional
+    expression or a static helper of one double parameter - into ->valueint, the function is followed once for each region into
+    which the constants it compares x with (and INT_MIN - 1, INT_MIN, INT_MIN + 1, INT_MAX - 1, INT_MAX, INT_MAX + 1, their
+    negatives, 0) cut the doubles, plus NaN and the infinities; conditions over x are decided for the region, all others are taken
+    both ways.  Every store that can be reached is either the conversion, with x strictly between INT_MIN - 1 and INT_MAX + 1, or a
+    constant equal to the truncated and saturated value of the region.  NaN is not judged: the parser cannot produce it and the
+    properties speak of numbers (today's tree converts it, which C leaves undefined; recorded in DESIGN.md, not claimed)."""
     u = units['cJSON.c']
     n = 0
+    NAN, INF = float('nan'), float('inf')
     for fn in u.function_list:
-        cfg = None
-        for a in assignments(fn):
-            l = strip_casts(a['l'])
-            if not (l.get('k') == 'mem' and l['f'] == 'valueint' and a['op'] == '='):
-                continue
-            r = a['r']
-            if const_val(r) is not None:
-                continue   # constant stores (true -> 1, the saturated values) are judged through the casts below
-            r0 = r
-            if not (r0.get('k') == 'cast' and u.ty(r0['from'])['c'] == 'float' and u.ty(r0['ty'])['c'] == 'int'):
-                if strip_casts(r).get('k') == 'mem' and strip_casts(r)['f'] == 'valueint':
-                    continue   # plain copy of another node's int view
+        if fn.body is None:
+            continue
+        stores = [a for a in assignments(fn) if strip_casts(a['l']).get('k') == 'mem' and strip_casts(a['l'])['f'] == 'valueint' and a['op'] == '=']
+        if not stores:
+            continue
+        # the converted variable: a double local/parameter that is cast to int here, or handed to a helper that returns int
+        xs = {}
+        for a in stores:
+            for y in walk(a['r']):
+                if y.get('k') == 'cast' and u.ty(y['from'])['c'] == 'float' and u.ty(y['ty'])['c'] == 'int' and strip_casts(y['e']).get('k') == 'ref':
+                    xs[strip_casts(y['e'])['d']] = strip_casts(y['e'])['n']
+                if y.get('k') == 'call' and callee_name(y) in u.functions and u.ty(y.get('ty0', y['ty']))['c'] == 'int':
+                    for a2 in y['args']:
+                        a2 = strip_casts(a2)
+                        if a2.get('k') == 'ref' and u.ty(a2.get('ty0', a2['ty']))['c'] == 'float':
+                            xs[a2['d']] = a2['n']
+        ivars = {strip_casts(a['r'])['d'] for a in stores if strip_casts(a['r']).get('k') == 'ref'}
+        for a2 in assignments(fn):
+            if is_ref(a2['l']) and strip_casts(a2['l'])['d'] in ivars:
+                for y in walk(a2['r']):
+                    if y.get('k') == 'cast' and u.ty(y['from'])['c'] == 'float' and u.ty(y['ty'])['c'] == 'int' and strip_casts(y['e']).get('k') == 'ref':
+                        xs[strip_casts(y['e'])['d']] = strip_casts(y['e'])['n']
+        if not xs:
+            nonconst = [a for a in stores if const_val(a['r']) is None and not (strip_casts(a['r']).get('k') == 'mem' and strip_casts(a['r'])['f'] == 'valueint')]
+            for a in nonconst:
                 n += 1
-                R.ob('TAB7', fn, a, 'int view %s follows the saturation template' % expr_str(a)[:50], False,
-                     'valueint assigned from %s without the INT_MAX/INT_MIN saturation chain' % expr_str(strip_casts(r))[:40],
-                     key='valueint:' + expr_str(strip_casts(r))[:40])
-                continue
-            n += 1
-            cfg = cfg or fn.cfg()
-            src = expr_str(strip_casts(r0['e']))
-            node = node_containing(cfg, a)
-            ups, lows = [], []
-            for b in cfg.nodes:
-                if b.kind != 'branch':
-                    continue
-                p = cmp_parts(b.expr)
-                if p is None or expr_str(p[0]) != src:
-                    continue
-                if p[1] in ('>=', '>') and p[2] == INT_MAX:
-                    ups.append(b)
-                if p[1] in ('<=', '<') and p[2] == INT_MIN:
-                    lows.append(b)
-
-            def guarded(bs):
-                return any(guarded_by(cfg, node.id, lambda nn, l, b=b: nn.id == b.id and l is not None and l[0] == 'F') for b in bs)
-
-            def saturates(bs, const):
-                for b in bs:
-                    ts = [y for (y, l) in cfg.succ[b.id] if l and l[0] == 'T']
-                    for t in ts:
-                        reg = cfg.reachable(t, stop={node.id}) | {t}
-                        for m in reg:
-                            mn = cfg.nodes[m]
-                            if mn.kind == 'stmt' and mn.expr.get('k') == 'bin' and mn.expr['op'] == '=' and \
-                                    is_mem(mn.expr['l'], 'valueint') and const_val(mn.expr['r']) == const:
-                                return True
-                return False
-            ok = guarded(ups) and guarded(lows) and saturates(ups, INT_MAX) and saturates(lows, INT_MIN)
-            why = 'cast reachable only when %s is below INT_MAX and above INT_MIN; the other arms store INT_MAX / INT_MIN' % src
-            if not ok:
-                miss = []
-                if not guarded(ups):
-                    miss.append('no dominating failed test against INT_MAX')
-                if not guarded(lows):
-                    miss.append('no dominating failed test against INT_MIN')
-                if ups and not saturates(ups, INT_MAX):
-                    miss.append('INT_MAX arm does not store INT_MAX')
-                if lows and not saturates(lows, INT_MIN):
-                    miss.append('INT_MIN arm does not store INT_MIN')
-                why = '; '.join(miss) + ' (conversion of an out-of-range double to int is undefined)'
-            R.ob('TAB7', fn, a, 'int view %s follows the saturation template' % expr_str(a)[:50], ok, why, key='valueint:(int)' + src)
+                R.ob('TAB7', fn, a, 'int view %s is the saturating conversion of the number' % expr_str(a)[:50], False,
+                     'valueint assigned from %s, which is neither a constant nor a conversion of the double' % expr_str(strip_casts(a['r']))[:40],
+                     key='valueint:' + expr_str(strip_casts(a['r']))[:40])
+            continue
+        if len(xs) != 1:
+            raise AnalysisBroken('TAB7: %s converts %d different doubles into valueint' % (fn.name, len(xs)))
+        xd, xn = next(iter(xs.items()))
+        # break points
+        pts = {0.0}
+        for base in (INT_MIN, INT_MAX):
+            pts |= {float(base - 1), float(base), float(base + 1)}
+        scope_fns = [fn] + [u.functions[callee_name(c)] for c in fn.calls() if callee_name(c) in u.functions and
+                            any(u.ty(p_['ty'])['c'] == 'float' for p_ in u.functions[callee_name(c)].params)]
+        for g in scope_fns:
+            for y in g.nodes():
+                if y.get('k') == 'bin' and y.get('op') in ('<', '<=', '>', '>=', '==', '!='):
+                    for side in (y['l'], y['r']):
+                        v = const_val(side)
+                        if v is None:
+                            v = const_val(strip_casts(side))
+                        if v is None and strip_casts(side).get('k') == 'float':
+                            v = float(strip_casts(side)['fval'])
+                        if v is not None and abs(float(v)) < 1e300:
+                            pts.add(float(v))
+        pts |= {-p_ for p_ in pts}
+        order = sorted(pts)
+        samples = [(NAN, 'NaN'), (-INF, '-infinity'), (INF, '+infinity'), (order[0] - 1e6, 'below %g' % order[0]), (order[-1] + 1e6, 'above %g' % order[-1])]
+        for i, p_ in enumerate(order):
+            samples.append((p_, '%.17g' % p_))
+            if i + 1 < len(order):
+                samples.append(((p_ + order[i + 1]) / 2.0, 'between %.17g and %.17g' % (p_, order[i + 1])))
+        worst = None
+        nstores = 0
+        try:
+            for (x, label) in samples:
+                for (node, val) in _t7_paths(u, fn, x, {xd: x}):
+                    nstores += 1
+                    if val is None:
+                        continue
+                    if val == ('cast',):
+                        if x != x:
+                            continue        # NaN is not a number any property speaks of (the parser cannot produce it); not judged
+                        if not ((INT_MIN - 1) < x < (INT_MAX + 1)):
+                            worst = worst or (node, '(int)%s is reached for %s = %s, where the conversion is undefined' % (xn, xn, label))
+                    elif x == x:
+                        want = INT_MAX if x >= INT_MAX else (INT_MIN if x <= INT_MIN else int(x))
+                        if val[1] != want:
+                            worst = worst or (node, 'for %s = %s the int view becomes %d; truncated and saturated it is %d' % (xn, label, val[1], want))
+        except _Undecided as ex_:
+            raise AnalysisBroken('TAB7: %s: %s cannot be decided for a given value of %s' % (fn.name, ex_, xn))
+        n += 1
+        R.ob('TAB7', fn, worst[0] if worst else stores[0], 'the int view of %s is its value truncated towards zero and saturated' % xn, worst is None,
+             '%d regions of the doubles, %d reachable stores' % (len(samples), nstores) if worst is None else worst[1], key='valueint:' + xn)
     R.floor('TAB7', 'double-to-int conversions into valueint', n, 3)
 
 
@@ -2242,7 +2419,11 @@ def c03_structure(units, R):
                                                  lambda nn, l: nn.kind == 'branch' and l is not None and (cmp_parts(nn.expr) or (None, None, None))[2] == ord(':')
                                                  and ((cmp_parts(nn.expr)[1] == '==') == (l[0] == 'T'))) for c in pv)
             R.ob('C03S', fn, None, 'a member value is parsed only after the colon', okc, '', key='colon')
-            ps = [c for c in fn.calls() if callee_name(c) == 'parse_string']
+            from ..specialize import as_written
+            uw = as_written(u)          # which functions decode a string is a fact about the program as written
+            producers = {'parse_string'} | _string_producers(uw)
+            ps = [c for c in uw.fn(name).calls() if callee_name(c) in producers] if name in uw.functions else []
+            ps = ps or [c for c in fn.calls() if callee_name(c) in producers]
             R.ob('C03S', fn, None, 'member names are parsed as strings', bool(ps), '', key='stringkey')
     R.floor('C03S', 'structure obligations', len([o for o in R.obs if o.rule == 'C03S']), 12)
 
@@ -2386,13 +2567,65 @@ def c02_structure(units, R):
                 R.ob('C02S', f2, a, '%s sets the list head only for the first element' % name, guarded_by(cfg2, node.id, head_null), '',
                      key='head:' + name)
     # object members: the key is the string just parsed
-    f3 = u.fn('parse_object')
+    from ..specialize import as_written
+    u3 = as_written(u)                  # who decodes strings and where the key comes from: read off the program as written
+    f3 = u3.fn('parse_object') if 'parse_object' in u3.functions else u.fn('parse_object')
     pairs = {(expr_str(strip_casts(a['l'])), expr_str(strip_casts(_final_rhs(a))) if not is_null_const(a['r']) else 'NULL')
              for a in assignments(f3) if a['op'] == '='}
     swap = any(l.endswith('->string') and r == l[:-len('string')] + 'valuestring' for (l, r) in pairs) and \
         any(l.endswith('->valuestring') and r == 'NULL' for (l, r) in pairs)
-    R.ob('C02S', f3, None, 'member key is the parsed string, moved out of valuestring', swap, '', key='keyswap')
+    how = 'moved out of valuestring'
+    if not swap:
+        # or: the name is decoded by the function parse_string itself gets its text from, and stored as the key directly
+        producers = _string_producers(u3)
+        defs3 = {}
+        for d_ in f3.locals():
+            if 'init' in d_:
+                defs3.setdefault(d_['d'], []).append(d_['init'])
+        for a in assignments(f3):
+            if is_ref(a['l']):
+                defs3.setdefault(strip_casts(a['l'])['d'], []).append(a['r'] if a['op'] == '=' else None)
+        for a in assignments(f3):
+            l = strip_casts(a['l'])
+            if l.get('k') == 'mem' and l['f'] == 'string' and a['op'] == '=':
+                r = strip_casts(a['r'])
+                if r.get('k') == 'ref':
+                    vals = [v for v in defs3.get(r['d'], []) if v is None or not (is_null_const(v) or strip_casts(v).get('null'))]
+                    if vals and all(v is not None and strip_casts(v).get('k') == 'call' and callee_name(strip_casts(v)) in producers for v in vals):
+                        swap = True
+                        how = 'decoded by %s' % sorted(producers)[0]
+                elif r.get('k') == 'call' and callee_name(r) in producers:
+                    swap = True
+                    how = 'decoded by %s' % callee_name(r)
+    R.ob('C02S', f3, None, 'member key is the parsed string', swap, how if swap else '', key='keyswap')
     R.floor('C02S', 'structure obligations', len([o for o in R.obs if o.rule == 'C02S']), 10)
+
+
+def _string_producers(u):
+    """Functions whose result parse_string stores as the decoded text (parse_string is then a thin wrapper around them): they are
+    the string production just as much as parse_string is."""
+    out = set()
+    ps = u.functions.get('parse_string')
+    if ps is None or ps.body is None:
+        return out
+    single = {}
+    for d_ in ps.locals():
+        if 'init' in d_:
+            single.setdefault(d_['d'], []).append(d_['init'])
+    for a in assignments(ps):
+        if is_ref(a['l']):
+            single.setdefault(strip_casts(a['l'])['d'], []).append(a['r'] if a['op'] == '=' else None)
+    for a in assignments(ps):
+        l = strip_casts(a['l'])
+        if l.get('k') == 'mem' and l['f'] == 'valuestring' and a['op'] == '=':
+            r = strip_casts(a['r'])
+            if r.get('k') == 'ref':
+                vals = [v for v in single.get(r['d'], []) if v is None or not (is_null_const(v) or strip_casts(v).get('null'))]
+                if len(vals) == 1 and vals[0] is not None:
+                    r = strip_casts(vals[0])
+            if r.get('k') == 'call' and callee_name(r) in u.functions:
+                out.add(callee_name(r))
+    return out
 
 
 def _final_rhs(a):
